@@ -720,6 +720,16 @@ impl<'a> Machine<'a> {
                     }
                 }
                 let recv = self.eval(&mc.receiver)?;
+                // `opt.map_or(default, |x| body)`
+                if m == "map_or" && mc.args.len() == 2 {
+                    if let syn::Expr::Closure(c) = &mc.args[1] {
+                        match &recv {
+                            V::Opt(None) => return self.eval(&mc.args[0]),
+                            V::Opt(Some(inner)) => return self.call_closure(c, &inner.clone()),
+                            _ => {}
+                        }
+                    }
+                }
                 // Option / Result combinators with a closure (Ok(x) is represented by x, Err(..) by Enum("Err(..)"))
                 if mc.args.len() == 1 {
                     if let syn::Expr::Closure(c) = &mc.args[0] {
